@@ -336,6 +336,8 @@ type collector struct {
 	classes  map[string]struct{}
 	harness  string
 	sample   string
+
+	sampleGood bool
 }
 
 type violation struct{ sig, msg string }
